@@ -22,6 +22,11 @@ TV      one pipeline per shard, two trace-validation passes around the harness:
                         flip (message, SIG RDATA: must be rejected; SIG RR header: no panic) and every truncation >= 12
                         (must be rejected, no panic), directly and through Unpack
           Trace_Sig0    pass 2: Accept0(View(buf), key owner, now, primitive verdict) = what the real Verify said
+                        Every verification runs on its own copy of the message; the copy must be unchanged afterwards
+                        (field `unchanged`; key sig0/verify-modifies-input), and after every FAILED verification the
+                        matching KEY is tried on the very same copy ("after-<variant>" events: must give the verdict of
+                        the message as received).  Tampered / truncated copies are checked for modification as well.
+        Quick = three parallel pipelines: the nine fixed messages; 2 x 16 random messages.
         Times: no assertion closer than 90 s to a window edge; the pipeline dies (exit 2) if it takes > 600 s.
 
 Mutants (checks/mutants/C18), stage that catches each on the quick tier:
